@@ -1337,3 +1337,45 @@ Proof.
   { apply failed_count_lower; [exact HF|]. intros t Ht. apply shown_failure_in_dict. apply HS. exact Ht. }
   split; [exact HL|]. intro Hmf. unfold tuner_end. apply limit_names. lia.
 Qed.
+
+(* ------------------------------------------------------------------ *)
+(* (8) a failed job frees its slot: the rung completes once every other  *)
+(*     job of the rung has reported or failed (no waiting for ever)       *)
+(* ------------------------------------------------------------------ *)
+Lemma num_pending_zero (rung : list slot) : forall ff, (forall i s, nth_error rung i = Some s -> snd s <> None) -> num_pending rung ff = 0%nat.
+Proof.
+  unfold num_pending. induction rung as [|x rung IH]; intros ff H; [destruct ff; reflexivity|].
+  destruct ff as [|ff]; [reflexivity|]. cbn [firstn filter].
+  pose proof (H 0%nat x eq_refl) as Hx. destruct (snd x) eqn:E; [|congruence].
+  apply IH. intros i s Hs. apply (H (S i) s Hs).
+Qed.
+
+Section RungCompletes.
+Variable promote : list slot -> nat -> list Z.
+(* the last open slot of a fully handed-out rung receives its result -- a metric value or NaN for a failed job --:
+   the rung is complete, the bracket moves on (next rung opened by the promotion rule, or bracket finished) *)
+Lemma last_result_completes_rung b sl tr mv rung ms :
+  slot_valid b (with_trial sl tr None) = true -> cur b = Some (rung, ms) -> (length rung <= first_free b)%nat ->
+  (forall i s, i <> s_index sl -> nth_error rung i = Some s -> snd s <> None) ->
+  exists b', bracket_on_result promote b (with_trial sl tr (Some mv)) = SOk b' /\
+    rungs_done b' = rungs_done b ++ [(write_slot rung (s_index sl) (tr, Some mv), ms)] /\
+    first_free b' = 0%nat /\
+    match future b with
+    | [] => cur b' = None
+    | (size, lvl) :: _ => cur b' = Some (map (fun t => (Some t, None)) (promote (write_slot rung (s_index sl) (tr, Some mv)) size), lvl)
+    end.
+Proof.
+  intros Hv Hc Hlen Hall. destruct (bor_valid promote b sl tr mv Hv) as [rung0 [ms0 [b' [Hc0 [E Hw]]]]].
+  rewrite Hc in Hc0. inversion Hc0; subst rung0 ms0. exists b'. split; [exact E|].
+  set (rung' := write_slot rung (s_index sl) (tr, Some mv)) in *.
+  assert (Hcond : Nat.leb (length rung') (first_free b) && Nat.eqb (num_pending rung' (first_free b)) 0 = true).
+  { apply andb_true_iff. split; [apply Nat.leb_le; unfold rung'; rewrite write_slot_length; exact Hlen|].
+    apply Nat.eqb_eq. apply num_pending_zero. intros i s Hs. unfold rung' in Hs.
+    destruct (Nat.eq_dec i (s_index sl)) as [->|Hne].
+    - destruct (slot_valid_inv _ _ Hv) as [rg [m0 [tid [C1 [_ [_ [_ [C5 _]]]]]]]]. rewrite Hc in C1. inversion C1; subst.
+      cbn [with_trial s_index] in C5. rewrite write_slot_nth_same in Hs by (apply nth_error_Some; congruence). inversion Hs. cbn. discriminate.
+    - rewrite write_slot_nth_other in Hs by exact Hne. eapply Hall; eauto. }
+  unfold written in Hw. fold rung' in Hw. destruct Hw as [[Ef _]|[[_ [Ef ->]]|[_ [size [lvl [fut [Ef ->]]]]]]]; [congruence | |];
+    cbn [rungs_done first_free cur]; rewrite Ef; auto.
+Qed.
+End RungCompletes.
